@@ -242,8 +242,11 @@ impl<T: Config> SpectatorSession<T> {
                 self.state = SessionState::Running;
                 self.event_queue.push_back(GgrsEvent::Synchronized { addr });
             }
-            // disconnect the player, then forward to user
+            // disconnect the host endpoint, then forward to user. Without this the endpoint would
+            // keep running and report NetworkResumed/NetworkInterrupted for an address that has
+            // already been reported as disconnected.
             Event::Disconnected => {
+                self.host.disconnect();
                 self.event_queue.push_back(GgrsEvent::Disconnected { addr });
             }
             // add the input and all associated information
